@@ -44,6 +44,16 @@ RNG_NEXT = z3.Function('rng_next', z3.IntSort(), z3.IntSort())
 RNG_SEED = z3.Function('rng_seed', z3.IntSort(), z3.IntSort())
 
 
+def DRAW_ENGINE(kind):
+    """engine state after one draw of a distribution of this kind (from distribution state, engine state)"""
+    return z3.Function('engine_after_' + kind, z3.IntSort(), z3.IntSort(), z3.IntSort())
+
+
+def DRAW_DIST(kind):
+    """distribution state after one draw"""
+    return z3.Function('dist_after_' + kind, z3.IntSort(), z3.IntSort(), z3.IntSort())
+
+
 def real(v):
     if z3.is_expr(v) and z3.is_int(v):
         return z3.ToReal(v)
@@ -174,22 +184,30 @@ def call_method(ex, objtype, name, objn, arrow, args, n, decl):
             ex.write(v.path, z3.Not(ex.read(v.path)))
             return None
     if re.search(r'(uniform_int_distribution|uniform_real_distribution|normal_distribution)<', t) and name == 'operator()':
-        # one draw: a function of the engine state (and the distribution parameters); the engine advances
-        dv = ex.ev(objn)
+        # one draw: a function of the distribution's own state (libstdc++'s normal_distribution keeps a saved value), the
+        # engine state and the parameters; both states move on by (uninterpreted) functions of the pair -- how many engine
+        # invocations a draw costs is NOT assumed
+        dp = ex.lv(objn)
+        dv = ex.read(dp)
         gp = ex.lv(args[0])
         st = ex.read(gp)
         kind = 'int' if 'uniform_int' in t else 'real'
-        fnm = 'draw_' + ('normal' if 'normal' in t else ('uniform_int' if kind == 'int' else 'uniform_real'))
-        params = [v for v in (dv.f.values() if isinstance(dv, SVal) else [])]
+        dk = 'normal' if 'normal' in t else ('uniform_int' if kind == 'int' else 'uniform_real')
+        params = [v for k_, v in (dv.f.items() if isinstance(dv, SVal) else []) if k_ != 'st']
         params = [real(p) if kind == 'real' else p for p in params]
-        sorts = [z3.IntSort()] + [p.sort() for p in params]
-        F = z3.Function(fnm, *(sorts + [z3.IntSort() if kind == 'int' else z3.RealSort()]))
-        val = F(st, *params)
+        dst = dv.f.get('st', z3.IntVal(0)) if isinstance(dv, SVal) else z3.IntVal(0)
+        sorts = [z3.IntSort(), z3.IntSort()] + [p.sort() for p in params]
+        F = z3.Function('draw_' + dk, *(sorts + [z3.IntSort() if kind == 'int' else z3.RealSort()]))
+        val = F(dst, st, *params)
         if kind == 'int' and len(params) == 2:
             ex.assume(z3.And(val >= params[0], val <= params[1]))   # closed range of uniform_int_distribution (a <= b)
-        ex.write(gp, RNG_NEXT(st))
-        ex.assumed.add('<random>: a draw is a function of the engine state and the distribution parameters; the engine '
-                       'state advances by RNG_NEXT; uniform_int_distribution(a,b) returns a value in [a,b]')
+        ex.write(gp, DRAW_ENGINE(dk)(dst, st))
+        if isinstance(dv, SVal):
+            nf = dict(dv.f)
+            nf['st'] = DRAW_DIST(dk)(dst, st)
+            ex.write(dp, SVal(dv.cls, nf))
+        ex.assumed.add('<random>: a draw is a function of the distribution state, the engine state and the parameters; both '
+                       'states advance by functions of that pair; uniform_int_distribution(a,b) returns a value in [a,b]')
         return val
     if re.search(r'(mersenne_twister_engine|mt19937)', t) and name == 'seed':
         gp = ex.lv(objn)
@@ -399,7 +417,9 @@ def ctor_model(ex, t, sh, ctype):
 
 def dist_ctor(ex, t, sh, ctype, args, n):
     vals = [ex.calls._val(ex, a) for a in args if a.get('kind') != 'CXXDefaultArgExpr']
-    return SVal('std::distribution', {'p%d' % i: v for i, v in enumerate(vals)})
+    f = {'p%d' % i: v for i, v in enumerate(vals)}
+    f['st'] = z3.IntVal(0)          # a freshly constructed distribution has no saved value
+    return SVal('std::distribution', f)
 
 
 def sptr_ctor(ex, t, sh, ctype, args, n):
@@ -529,6 +549,9 @@ def _memcpy(ex, args, n):
     ex.oblige('bounds', nm + '.size', z3.And(nb == cnt * size, cnt >= 0), n)
     ex.oblige('bounds', nm + '.dst', z3.Or(cnt == 0, z3.And(d.off >= 0, d.off + cnt <= dv.len)), n)
     ex.oblige('bounds', nm + '.src', z3.Or(cnt == 0, z3.And(s.off >= 0, s.off + cnt <= sv.len)), n)
+    # both arguments must be valid pointers even when nothing is copied: data() of an empty vector may be null, and a null
+    # argument to memcpy / memmove is undefined behaviour whatever the size (the sanitizers report it)
+    ex.oblige('bounds', nm + '.nonnull', z3.And(dv.len > 0, sv.len > 0), n)
     if nm == 'memcpy' and d.path.same(s.path):
         ex.oblige('overlap', 'memcpy', z3.Or(cnt == 0, d.off + cnt <= s.off, s.off + cnt <= d.off), n)
     nd = lam_copy(dv.data, d.off, sv.data, s.off, cnt)
